@@ -19,6 +19,9 @@ def plan(tier, seed):
         jobs.append(j)
     jobs.append(ch("C07", G, "h_find_max_part", t, ["writer.find_max_part", "api.part_ids"]))
     jobs.append(ch("C07", G, "h_find_max_part_dirs", t, ["writer.find_max_part", "api.part_ids"]))
+    jobs.append(ch("C07", G, "h_find_max_part_order", t, ["writer.find_max_part", "api.part_ids"]))
+    jobs.append(ch("C07", G, "h_append_scheme", t, ["api.ParquetFile.write_row_groups", "writer.write_multi",
+                                                    "writer.partition_on_columns", "api.paths_to_cats"]))
     try:
         from . import partnames
         jobs += partnames.jobs("C07", tier)
